@@ -369,6 +369,26 @@ const HOSTILE_NUMBERS: &[&str] = &[
 pub fn mutate(rng: &mut Rng, valid: &str, size: usize) -> String {
     let mut toks = tokens(valid);
     let nums: Vec<usize> = (0..toks.len()).filter(|&k| is_number(&toks[k])).collect();
+    // degree lists written with zeros (undefined degrees): one zero per chamber, per orbit, or any number
+    if rng.chance(1, 12) {
+        let joined = toks.join("");
+        let parts: Vec<&str> = joined.split(':').collect();
+        if parts.len() == 4 {
+            let lists: Vec<String> = parts[3]
+                .trim_end_matches('>')
+                .split(',')
+                .map(|l| {
+                    if rng.chance(2, 3) {
+                        let k = 1 + rng.below(size.max(1) + 1);
+                        vec!["0"; k].join(" ")
+                    } else {
+                        l.to_string()
+                    }
+                })
+                .collect();
+            return format!("{}:{}:{}:{}>", parts[0], parts[1], parts[2], lists.join(","));
+        }
+    }
     let nmut = 1 + rng.below(2);
     for _ in 0..nmut {
         if toks.is_empty() {
